@@ -261,7 +261,17 @@ pub fn emit(idx: &Index, ok: &BTreeMap<String, Translated>, out: &Path, harness:
         ));
         names.push((id.clone(), dn));
         rust.push_str(&format!("        {:?} => {{ if a.len() != {} {{ return Some(\"bad-args\".into()); }} {}rep(&({})) }}\n", id, ai, rust_pre, rust_call));
+        let pname = |p: &syn::Pat| match p {
+            syn::Pat::Ident(i) => i.ident.to_string(),
+            _ => "_".to_string(),
+        };
+        let param_names: Vec<String> = fi.params.iter().map(|(p, _)| pname(p)).collect();
+        let ctor_names: Vec<String> = match &fi.self_ty {
+            Some(st) if fi.self_kind != SelfKind::None => idx.fns.get(&format!("{}::new", st)).map(|c| c.params.iter().map(|(p, _)| pname(p)).collect()).unwrap_or_default(),
+            _ => vec![],
+        };
         sigs.push(serde_json::json!({"id": id, "ctor": ctor_sig, "params": sig, "self": fi.self_ty, "method": fi.name,
+            "param_names": param_names, "ctor_names": ctor_names, "trait": fi.trait_name,
             "file": fi.file, "ret": format!("{:?}", fi.ret)}));
     }
     let mut tabs = vec![];
